@@ -28,7 +28,7 @@ package ctutil
 //@ at vs assert [verifies-that-sct-over-that-leaf-with-that-verifier] vs.sct == *sct && vs.entry.Leaf == *cl.res0 && vs.s == *sv
 
 //@ func createLeaf
-//@ props C05
+//@ props C05 C06
 //@ modifies nothing
 //@ arith int
 //@ site ContainsSCT#1 as cs
@@ -45,6 +45,30 @@ package ctutil
 //@ at cs assert [looks-in-the-leaf-certificate] cs.cert == chain[0] && cs.sct == sct
 //@ at me assert [at-the-sct-timestamp] me.chain == chain && me.timestamp == sct.Timestamp
 //@ at mc assert [entry-type-by-poison-at-the-sct-timestamp] mc.chain == chain && mc.timestamp == sct.Timestamp && mc.etype == (ip.res ? ct.PrecertLogEntryType : ct.X509LogEntryType)
+
+// The leaf hash a client computes "from the certificate and the SCT alone" (C06): the hash of the
+// leaf createLeaf builds for that chain and SCT, i.e. of the same MerkleTreeLeaf the log builds.
+//@ func LeafHash
+//@ props C06
+//@ modifies nothing
+//@ frame-trusted builds a new leaf and hashes it
+//@ site createLeaf#1 as cl
+//@ site LeafHashForLeaf#1 as lh
+//@ requires forall j int :: 0 <= j && j < len(chain) ==> chain[j] != nil
+//@ ensures [no-leaf-no-hash] cl.res1 != nil ==> result1 == cl.res1 && !lh.called
+//@ ensures [hash-of-the-leaf-for-that-chain-and-sct] cl.res1 == nil ==> lh.called && result0 == lh.res0 && result1 == lh.res1
+//@ at cl assert [leaf-for-that-chain-and-sct] cl.chain == chain && cl.sct == sct && cl.embedded == embedded
+//@ at lh assert [hashes-that-leaf] lh.leaf == cl.res0
+
+//@ func LeafHashB64
+//@ props C06
+//@ modifies nothing
+//@ frame-trusted encodes the hash
+//@ site LeafHash#1 as h
+//@ requires forall j int :: 0 <= j && j < len(chain) ==> chain[j] != nil
+//@ ensures [error-passed-on-with-no-text] h.res1 != nil ==> result1 == h.res1 && result0 == ""
+//@ ensures [success-only-with-a-hash] result1 == nil ==> h.res1 == nil
+//@ at h assert [hash-for-that-chain-and-sct] h.chain == chain && h.sct == sct && h.embedded == embedded
 
 //@ func (*LogInfo).VerifySCTSignature
 //@ props C05
